@@ -215,10 +215,14 @@ impl QueryNode {
 
             // Pin chunks to prevent GC during query execution (RAII guard unpins on drop)
             let chunk_paths: Vec<String> = chunks.iter().map(|c| c.chunk_path.clone()).collect();
-            let _pin_guard = self
-                .pin_registry
-                .as_ref()
-                .map(|r| r.pin(chunk_paths.clone()));
+            let _pin_guard = match self.pin_registry.as_ref() {
+                Some(registry) => Some(registry.try_pin(chunk_paths.clone()).map_err(|path| {
+                    Error::Query(format!(
+                        "chunk {path} was compacted away and is being garbage collected; retry the query"
+                    ))
+                })?),
+                None => None,
+            };
 
             // Map metadata-selected chunks into the logical `metrics` table used by SQL.
             // Execute query with or without adaptive indexing while holding a stable
